@@ -3,6 +3,7 @@ package hostile
 import (
 	"bufio"
 	"bytes"
+	"errors"
 	"fmt"
 	"io"
 	"net"
@@ -31,9 +32,10 @@ type Op struct {
 // Case is a replayable correspondence case: one server, a serialised schedule of steps on
 // several connections.
 type Case struct {
-	Name string `json:"name"`
-	Cfg  Cfg    `json:"cfg"`
-	Ops  []Op   `json:"ops"`
+	Name   string `json:"name"`
+	Cfg    Cfg    `json:"cfg"`
+	IdleMs int    `json:"idle_ms,omitempty"` // IdleTimeout of the server (default 1000)
+	Ops    []Op   `json:"ops"`
 }
 
 type caseRun struct {
@@ -72,51 +74,86 @@ func (cs *caseRun) subst(b []byte) []byte {
 	return out
 }
 
-// observe collects what the callbacks reported since the previous step and renders the
-// implementation's line: `<answer> cc=… co=… so=… sc=… | L …`.
-func (cs *caseRun) observe(answer string) string {
+// view is a consistent observation of the server: the callbacks since the previous step and the
+// sizes of the tables, taken while no callback arrived and with the tables agreeing with the
+// callbacks (the server's main routine updates its maps a moment before / after the callbacks).
+type view struct {
+	cc, co, so, sc []int
+	idle, timedOut []int // connections ended by a deadline, sessions ended by their UDP time-out
+	l              ledger
+}
+
+func (cs *caseRun) look() view {
 	ts := cs.ts
-	ts.mu.Lock()
-	var cc, co, so, sc []int
-	for _, e := range ts.events[cs.cursor:] {
-		switch e.kind {
-		case evConnClose:
-			cc = append(cc, e.id)
-		case evConnOpen:
-			co = append(co, e.id)
-		case evSessOpen:
-			so = append(so, e.id)
-		case evSessClose:
-			sc = append(sc, e.id)
+	var v view
+	for i := 0; i < 400; i++ {
+		v = view{}
+		ts.mu.Lock()
+		n := len(ts.events)
+		for _, e := range ts.events[cs.cursor:] {
+			switch e.kind {
+			case evConnClose:
+				v.cc = append(v.cc, e.id)
+				if !isTerminated(e.err) && !errors.Is(e.err, io.EOF) {
+					v.idle = append(v.idle, e.id)
+				}
+			case evConnOpen:
+				v.co = append(v.co, e.id)
+			case evSessOpen:
+				v.so = append(v.so, e.id)
+			case evSessClose:
+				v.sc = append(v.sc, e.id)
+				if isTimedOut(e.err) {
+					v.timedOut = append(v.timedOut, e.id)
+				}
+			}
 		}
-	}
-	cs.cursor = len(ts.events)
-	openConns, openSess := 0, 0
-	for _, c := range ts.connClosed {
-		if !c {
-			openConns++
+		openConns, openSess := 0, 0
+		for _, c := range ts.connClosed {
+			if !c {
+				openConns++
+			}
 		}
-	}
-	for _, c := range ts.sessClosed {
-		if !c {
-			openSess++
+		for _, c := range ts.sessClosed {
+			if !c {
+				openSess++
+			}
 		}
-	}
-	ts.mu.Unlock()
-	// the server's own tables are updated by its main routine a moment before / after the
-	// callbacks: wait until they agree with the callbacks
-	for i := 0; i < 500; i++ {
-		l := ts.s.VerifLedger()
-		if l.Conns == openConns && l.Sessions == openSess {
+		ts.mu.Unlock()
+		v.l = ts.ledger()
+		l2 := ts.ledger()
+		ts.mu.Lock()
+		stable := len(ts.events) == n
+		ts.mu.Unlock()
+		if stable && v.l == l2 && v.l.Conns == openConns && v.l.Sessions == openSess {
+			cs.cursor = n
 			break
+		}
+		if i == 399 {
+			cs.cursor = n
 		}
 		time.Sleep(time.Millisecond)
 	}
-	sort.Ints(cc)
-	sort.Ints(co)
-	sort.Ints(so)
-	sort.Ints(sc)
-	return fmt.Sprintf("%s cc=%s co=%s so=%s sc=%s | %s", answer, corr.Ints(cc), corr.Ints(co), corr.Ints(so), corr.Ints(sc), ts.ledger().short())
+	sort.Ints(v.cc)
+	sort.Ints(v.co)
+	sort.Ints(v.so)
+	sort.Ints(v.sc)
+	sort.Ints(v.idle)
+	sort.Ints(v.timedOut)
+	return v
+}
+
+func (v view) line(answer string) string {
+	return fmt.Sprintf("%s cc=%s co=%s so=%s sc=%s | %s", answer, corr.Ints(v.cc), corr.Ints(v.co), corr.Ints(v.so), corr.Ints(v.sc), v.l.short())
+}
+
+// observe renders the implementation's line of a step: `<answer> cc=… co=… so=… sc=… | L …`.
+func (cs *caseRun) observe(answer string) string { return cs.look().line(answer) }
+
+// emitTimeouts records the time-outs of the window as one model step.
+func (cs *caseRun) emitTimeouts() {
+	v := cs.look()
+	cs.emit(fmt.Sprintf("hostile timeouts %s %s", corr.Ints(v.idle), corr.Ints(v.timedOut)), v.line("none"))
 }
 
 func (cs *caseRun) emit(op, impl string) {
@@ -150,25 +187,9 @@ func (cs *caseRun) settleSession(ss *gortsplib.ServerSession) {
 	if !ok {
 		return
 	}
-	st := ss.State()
-	tr := ss.Transport()
-	streamingAlone := (st == gortsplib.ServerSessionStatePlay || st == gortsplib.ServerSessionStateRecord) &&
-		tr != nil && tr.Protocol != gortsplib.ProtocolTCP
-	expect := !streamingAlone
-	if expect {
-		// other connections may still hold it
-		open := 0
-		conns := ss.Conns()
-		ts.mu.Lock()
-		for _, sc := range conns {
-			if id, ok := ts.connID[sc]; ok && !ts.connClosed[id] {
-				open++
-			}
-		}
-		ts.mu.Unlock()
-		expect = open == 0
-	}
-	if expect {
+	// VerifBarrier: the session routine has processed everything it received (the removal of the
+	// connection in particular) and says whether it is ending
+	if ss.VerifBarrier() {
 		if !ts.waitFor(settleWait, func() bool { return ts.sessClosed[sid] }) {
 			cs.notes = append(cs.notes, fmt.Sprintf("OnSessionClose(%d) not seen within %v", sid, settleWait))
 		}
@@ -231,6 +252,27 @@ var probeReq = []byte("OPTIONS * RTSP/1.0\r\nCSeq: 999999\r\n\r\n")
 // stepSend sends bytes on a connection and handles every message they complete.
 func (cs *caseRun) stepSend(p *peer, data []byte) {
 	data = cs.subst(data)
+	if p.isGet && !p.merged {
+		// the server does not read from a GET channel that waits for its POST
+		p.write(data)
+		p.pending = append(p.pending, data...)
+		done := 0
+		for _, m := range splitStream(p.pending) {
+			done = m.n
+			switch m.kind {
+			case mRequest:
+				cs.emit(cs.reqLine(p.id, m.req), cs.observe("none"))
+			case mFrame:
+				cs.emit(fmt.Sprintf("hostile in %d frame %d", p.id, m.ch), cs.observe("none"))
+			case mResponse:
+				cs.emit(fmt.Sprintf("hostile in %d response", p.id), cs.observe("none"))
+			case mBad:
+				cs.emit(fmt.Sprintf("hostile in %d malformed", p.id), cs.observe("none"))
+			}
+		}
+		p.pending = p.pending[done:]
+		return
+	}
 	first := p.sent == 0 && !p.b64
 	p.pending = append(p.pending, data...)
 	p.sent += len(data)
@@ -239,9 +281,7 @@ func (cs *caseRun) stepSend(p *peer, data []byte) {
 		switch class {
 		case hIncomplete:
 			p.httpPending = true
-			if err := p.write(data); err != nil {
-				cs.notes = append(cs.notes, "write: "+err.Error())
-			}
+			p.write(data)
 			return
 		case hNotHTTP:
 			p.httpPending = false
@@ -265,9 +305,7 @@ func (cs *caseRun) stepSend(p *peer, data []byte) {
 			if m.kind == mFrame {
 				chunk = append(append([]byte{}, chunk...), probeReq...)
 			}
-			if err := p.write(chunk); err != nil {
-				cs.notes = append(cs.notes, "write: "+err.Error())
-			}
+			p.write(chunk) // a write error shows as the end of the connection at the next read
 			toSend = toSend[upto:]
 			base0 += upto
 		} else if m.kind == mFrame {
@@ -331,9 +369,7 @@ func (cs *caseRun) stepSend(p *peer, data []byte) {
 		}
 	}
 	if len(toSend) > 0 {
-		if err := p.write(toSend); err != nil {
-			cs.notes = append(cs.notes, "write: "+err.Error())
-		}
+		p.write(toSend)
 	}
 	p.pending = p.pending[done:]
 }
@@ -362,9 +398,7 @@ func (cs *caseRun) stepHTTP(p *peer, data []byte, class int, cookie string, n in
 	ts.mu.Lock()
 	nconn := len(ts.conns)
 	ts.mu.Unlock()
-	if err := p.write(data); err != nil {
-		cs.notes = append(cs.notes, "write: "+err.Error())
-	}
+	p.write(data)
 	readHTTP := func() string {
 		p.rc.SetReadDeadline(time.Now().Add(cs.answerWait()))
 		res, err := http.ReadResponse(p.br, nil)
@@ -408,9 +442,15 @@ func (cs *caseRun) stepHTTP(p *peer, data []byte, class int, cookie string, n in
 		cs.emit(fmt.Sprintf("hostile in %d ws %s", p.id, b01(wsOK)), cs.observe(answer))
 		p.raw = true
 	case hGet:
+		before := ts.s.VerifLedger().HTTPReadChannels
 		answer := readHTTP()
 		p.cookie = cookie
 		p.isGet = true
+		// the server registers the channel after it has answered: wait for it, otherwise a POST
+		// sent right away may overtake the registration
+		for i := 0; i < 1000 && answer == "http:200" && ts.s.VerifLedger().HTTPReadChannels <= before; i++ {
+			time.Sleep(time.Millisecond)
+		}
 		cs.emit(fmt.Sprintf("hostile in %d httpGet %d", p.id, cs.cookies.id(cookie)), cs.observe(answer))
 		// the server holds the channel until a POST arrives or 5 s pass
 	case hPost:
@@ -429,6 +469,11 @@ func (cs *caseRun) stepHTTP(p *peer, data []byte, class int, cookie string, n in
 				return len(ts.conns) > nconn && ts.connClosed[p.id] && ts.connClosed[get.id]
 			}) {
 				cs.notes = append(cs.notes, "HTTP tunnel: merge callbacks not seen")
+				if p.waitEOF(cs.answerWait()) {
+					cs.afterClose(p)
+				}
+				cs.emit(fmt.Sprintf("hostile in %d httpPost %d %d", p.id, cs.cookies.id(cookie), 9999), cs.observe(answer))
+				return
 			}
 			ts.mu.Lock()
 			fresh := len(ts.conns) - 1
@@ -514,7 +559,8 @@ func (cs *caseRun) stepEOF(p *peer) {
 		if !cs.ts.waitFor(7*time.Second, func() bool { return cs.ts.connClosed[p.id] }) {
 			cs.notes = append(cs.notes, "GET channel not released")
 		}
-		cs.emit(fmt.Sprintf("hostile in %d idle", p.id), cs.observe("none"))
+		cs.markClosedPeers()
+		cs.emitTimeouts()
 		return
 	}
 	cs.afterClose(p)
@@ -528,24 +574,12 @@ func (cs *caseRun) stepIdle(p *peer) {
 	closed := p.waitEOF(limit)
 	if !closed {
 		cs.notes = append(cs.notes, fmt.Sprintf("connection %d not closed after %v of silence", p.id, limit))
-		cs.emit(fmt.Sprintf("hostile in %d idle", p.id), cs.observe("none"))
+		cs.emitTimeouts()
 		return
 	}
 	cs.afterClose(p)
-	// who ended it: its own read deadline, or the time-out of its session?
-	ts.mu.Lock()
-	sessTO := -1
-	for _, e := range ts.events[cs.cursor:] {
-		if e.kind == evSessClose && isTimedOut(e.err) {
-			sessTO = e.id
-		}
-	}
-	ts.mu.Unlock()
-	if sessTO >= 0 {
-		cs.emit(fmt.Sprintf("hostile sesstimeout %d", sessTO), cs.observe("none"))
-		return
-	}
-	cs.emit(fmt.Sprintf("hostile in %d idle", p.id), cs.observe("none"))
+	cs.markClosedPeers()
+	cs.emitTimeouts()
 }
 
 // finish closes what is left and waits for the sessions that outlive their connections.
@@ -582,7 +616,7 @@ func (cs *caseRun) finish() {
 			cs.notes = append(cs.notes, fmt.Sprintf("session %d never closed", open))
 			break
 		}
-		cs.emit(fmt.Sprintf("hostile sesstimeout %d", open), cs.observe("none"))
+		cs.emitTimeouts()
 	}
 	l := ts.ledger()
 	cs.emit("hostile ledger", fmt.Sprintf("%s %d %d", l.short(), l.Mcast, l.HTTPRead))
@@ -591,6 +625,9 @@ func (cs *caseRun) finish() {
 // runCase executes a case against a fresh server; the result is a correspondence case plus the
 // notes of the settle logic (each note is also a property violation candidate).
 func runCase(c *Case, idle, read time.Duration, seed uint64) (*caseRun, error) {
+	if c.IdleMs > 0 {
+		idle = time.Duration(c.IdleMs) * time.Millisecond
+	}
 	ts, err := startServer(c.Cfg, idle, read, seed)
 	if err != nil {
 		return nil, err
